@@ -131,6 +131,12 @@ TrHole == /\ IsEvent("Hole")
           /\ UNCHANGED <<durable, closeDig, img, slen, pos, origDig>>
 \* there is no action for "Died" (the child running open/check/repair crashed): rejected
 
+\* a table dumped from and loaded back into the OPEN database while background merges /
+\* persists computed on the old table are in flight: afterwards the table is the dumped one
+\* (every index, counts), and it stays so (the following Persist / Close / Reopen events)
+TrLiveLoad == /\ IsEvent("LiveLoad") /\ Ev.res = "ok" /\ Ev.same = 1
+              /\ UNCHANGED <<durable, closeDig, img, slen, pos, origDig>>
+
 ----------------------------------------------------------------------------
 (* C20 *)
 TrOriginal == /\ IsEvent("Original") /\ Ev.agree = 1 /\ Ev.check = ""
@@ -154,7 +160,7 @@ TrLiveDump == /\ IsEvent("LiveDump") /\ Ev.res = "ok" /\ Ev.same = 1
               /\ UNCHANGED <<durable, closeDig, img, slen, pos, origDig>>
 
 TraceNext == \/ TrReset \/ TrTableRT \/ TrDupLoad \/ TrLiveDump \/ TrCreated \/ TrNoop \/ TrPersist \/ TrImage \/ TrClose \/ TrReopen
-             \/ TrAsofAt \/ TrAsofStep \/ TrAsofFuture \/ TrTrial \/ TrHole \/ TrOriginal \/ TrSame
+             \/ TrAsofAt \/ TrAsofStep \/ TrAsofFuture \/ TrTrial \/ TrHole \/ TrLiveLoad \/ TrOriginal \/ TrSame
 TraceSpec == TraceInit /\ [][TraceNext]_tvars
 HW == HWMark(l)
 =============================================================================
